@@ -1,5 +1,5 @@
 """Which units exist, and what each claimed property covers / does not cover (copied into evidence)."""
-UNITS = ['budget', 'scalars', 'events', 'location', 'live', 'reader', 'snippet', 'quoting', 'typed', 'base64', 'crop']
+UNITS = ['budget', 'scalars', 'events', 'location', 'live', 'reader', 'snippet', 'quoting', 'typed', 'base64', 'crop', 'robotics']
 
 GLOBAL_ASSUMPTIONS = [
     'Verus 0.2026.09.13 and its bundled Z3 are sound; the extractor rewrite rules R0..R17 preserve meaning (DESIGN.md 3.2)',
@@ -9,6 +9,22 @@ GLOBAL_ASSUMPTIONS = [
 ]
 
 PROPS = {
+    'C19': dict(
+        covered=[
+            'the whole expression evaluator of src/robotics.rs (feature robotics; text extracted with the feature on): Parser::new, eof, peek, bump, is_ws, skip_ws, enter, exit, expr, term, unary, primary, parse_number_or_special, parse_ident_or_special, starts_ci, try_parse_sexagesimal, read_uint_unders_to_f64/u32, read_frac_part_unders, is_ident_start/cont and parse_yaml12_float_angle_converting::<f64>/<f32>',
+            'totality for every text: no reachable panic (index, str slice on a char boundary, overflow, debug assertions), every loop terminates and the mutual recursion expr -> term -> unary -> primary -> expr terminates (measure: remaining input, then rank)',
+            'nesting: depth is counted by enter/exit, never exceeds MAX_EXPR_DEPTH and is restored by every function on Ok and on Err',
+            'cursor discipline: the cursor only moves forward, never past the end; a text that is not sexagesimal leaves it untouched',
+            'number tokens: an integer field is exactly its digits (single `_` only between digits), value folded digit by digit; a fraction uses its first 18 digits; a number literal is handed to f64::from_str as exactly its characters minus `_` separators; `.inf` / `.nan` case-insensitively; at most MAX_NUM_DIGITS digits',
+            'unit flags: a sexagesimal value always carries a unit; at the top a Degrees tag converts a unitless value exactly once and a Degrees tag on an expression mixing unitised and plain terms is rejected',
+        ],
+        not_covered=[
+            'IEEE-754 arithmetic itself: + - * / neg, casts and f64::from_str are uninterpreted functions here, so exactness of the numeric result is relative to them',
+            'that ordinary float literals evaluate to the same value with the option on and off (needs f64::from_str semantics); the dispatch in parse_scalars::parse_yaml12_float; the deserialize_f32/f64 entry points',
+        ],
+        assumptions=['float operations, casts and f64::from_str are opaque (contracts/robotics.shim.rs); UTF-8 self-synchronisation axiom (contracts/crop.spec.rs)',
+                     'the optional feature is not built by the baseline suite; the text is extracted with cfg(feature = "robotics") evaluated to true'],
+    ),
     'C07': dict(
         covered=[
             'BudgetEnforcer::observe: one step over all enforcer states and all events equals the independent count '
@@ -186,6 +202,5 @@ NOT_APPLICABLE = {
     #'C12': 'not yet under contract in this revision (unit quoting planned)',
     #'C16': 'not yet under contract in this revision (unit location planned)',
     #'C17': 'not yet under contract in this revision (unit snippet planned)',
-    'C19': 'unit robotics was not built in the time available; only totality was in reach anyway (float arithmetic is uninterpreted in Verus, dec2flt defeats CBMC), see DESIGN.md section 0',
     #'C20': 'not yet under contract in this revision (unit quoting planned)',
 }
